@@ -312,11 +312,13 @@ class Gen:
         self.cost += 0.05
         return doc
 
-    def load(self, doc, mslot=None):
+    def load(self, doc, mslot=None, form=None):
         r = self.rng
         mslot = self._free_model_slot() if mslot is None else mslot
-        form = "json" if self.backend == "fleetsim" else _wchoice(
-            r, [("json", 4), ("dict", 2), ("dict_twice", 1), ("json_dict_json", 1)])
+        drawn = "json" if self.backend == "fleetsim" else _wchoice(
+            r, [("json", 4), ("dict", 2), ("dict_twice", 1), ("json_dict_json", 1), ("json_sorted", 1.5),
+                ("dict_sorted", 0.7)])
+        form = form or drawn
         self.emit("LOAD", doc=doc, m=mslot, form=form)
         if doc in self.docs:
             m = dict(self.docs[doc])
@@ -342,9 +344,10 @@ class Gen:
         elif k == "blas":
             self.emit("BLAS", n=r.choice([1, 2, 16, None]))
         elif k == "clock":
-            how = r.choice(["skew", "jump", "jump", "stall", "native_jump", "native_jump"])
+            how = r.choice(["skew", "jump", "jump", "stall", "native_jump", "native_jump", "date", "date"])
             x = {"skew": r.choice([0.01, 0.5, 3.0, 100.0]), "jump": r.choice([-3600.0, -5.0, 60.0, 86400.0, 86400.0 * 200]),
-                 "stall": r.choice([5, 50]), "native_jump": r.choice([6.0, 30.0, 3600.0, -30.0])}[how]
+                 "stall": r.choice([5, 50]), "native_jump": r.choice([6.0, 30.0, 3600.0, -30.0]),
+                 "date": 86400.0 * r.choice([1, -1, 35, 400, 3660, -3650, -12000])}[how]
             n = r.choice([1, 3]) if how != "native_jump" else r.choice([2, 10, 60, 400])
             self.emit("CLOCK", how=how, x=x, n=n)
         else:
@@ -371,7 +374,8 @@ class Gen:
             self.predict(m1, d_s, ignore=True)
             self.predict(m1, d_l, ignore=True)
             doc2 = self.store(m1)
-            m2 = self.load(doc2)
+            # the second generation comes back from a store that normalises JSON (member order, whitespace)
+            m2 = self.load(doc2, form="json_sorted")
             self.predict(m2, d_l, ignore=True)
             if self.models[m2]["fam"] in ("daily", "billing"):
                 # far outside the fitted range and exactly on the balance points, restored and second generation
